@@ -2,7 +2,7 @@
 manifest texts).  `./check <ID>` reads this; tools/gen_manifest.py renders MANIFEST.json from it."""
 
 FS_MODULES = ['contracts.fs_format', 'contracts.fs_load', 'contracts.blobmodel',
-              'contracts.fs_write', 'contracts.fs_open']
+              'contracts.fs_write', 'contracts.fs_open', 'contracts.fs_index_files']
 
 TECH = ('contract-based deductive verification: own ast->z3 VC generator (pyvc) over the real source + '
         'sidecar contracts, ground quantifier instantiation, native replay of counter-models')
@@ -213,6 +213,30 @@ PROPS['C15'] = {
     'note': 'DB.open\'s future check, Connection._commit\'s ReadOnlyHistoryError and the historical pool are covered '
             'by the bounded harness only. TimeStamp is an assumed contract (A-TIMESTAMP).',
     'design_ref': 'DESIGN.md section 5 C15',
+}
+
+PROPS['C09'] = {
+    'modules': FS_MODULES,
+    'lemmas': ['contracts.fs_index_files:lemma_readonly_guards'],
+    'level': 'proof',
+    'bounded': [
+        {'func': 'ZODB.FileStorage.FileStorage:FileStorage.__init__<index-variants>',
+         'bound': '3 histories (one ending in empty transactions, one with a pack); index saved at every close point '
+                  '(also before the pack); every truncation of each saved index (all lengths for <=400 bytes, else '
+                  '~100 sampled); leftover .index_tmp/.pack/.old; read-only opens of clean / voted-unfinished / torn '
+                  'files with directory snapshot and every mutator called'},
+    ],
+    'text': '_sane proved TOTAL: for every file content and every saved (index, pos) it returns 0 or a tid and '
+            'raises nothing (each seek offset and short read inside _check_sanity is an exceptional outcome that '
+            '_sane must absorb); an accepted index reports the tid of the transaction ending at the saved position; '
+            '_check_sanity touches no file; _save_index proved to write the index under the temporary name, never '
+            'in place, to rename after removing the old file, and to touch nothing in read-only mode; read_index '
+            'with read_only proved to leave the file byte-identical; every mutator proved (syntactically + store/'
+            'deleteObject/new_oid/tpc_begin contracts) to refuse with ReadOnlyError first.',
+    'note': 'SUFFICIENCY of the _check_sanity heuristic (accepted => the index is a prefix index of this file, also '
+            'for an index saved before a pack) cannot be proved (a counter-model exists for adversarial payload '
+            'bytes): covered by the bounded stand-in only. FileStorage.__init__/_restore_index as a whole: bounded.',
+    'design_ref': 'DESIGN.md section 5 C09',
 }
 
 NOT_YET = {}
